@@ -552,7 +552,13 @@ func checkC19(c *Ctx) {
 					var patterns []string
 					for i := 0; i < 1+r.Intn(3); i++ {
 						d := devs[r.Intn(len(devs))]
-						switch r.Intn(4) {
+						switch r.Intn(6) {
+						case 4:
+							// a character class and no other wild card
+							patterns = append(patterns, d[:len(d)-1]+"["+d[len(d)-1:]+"]")
+						case 5:
+							// an escaped character and no other wild card / a negated class
+							patterns = append(patterns, pickStr(r, d[:len(d)-1]+"\\"+d[len(d)-1:], d[:len(d)-1]+"[^#]"))
 						case 0:
 							patterns = append(patterns, d)
 						case 1:
